@@ -194,6 +194,21 @@ CLAIMED['C05'] = ('other',
     'call-graph + dominance (must-pass-through) + slice-interval rules, ALG tabulation for the generic modules',
     'DESIGN.md section C05')
 
+CLAIMED['C17'] = ('other',
+    'Decided part: (1) coverage - the abstract interpreter records which characters of the canonical input are handed to a check digit '
+    'algorithm, a generator or a check comparison; on every accepting path of the formats the property names and of every national '
+    'module that uses Luhn/Verhoeff/Damm/ISO 7064, every input character must be covered (a frozen, documented list of partially '
+    'protected formats bounds what may stay uncovered), and no check may compare a generated character with a generated character; '
+    '(2) the algorithm a module delegates to must pass the tabulated ALG obligations of C06 (substitution for all, transposition for '
+    'Verhoeff, Damm, Mod 11-2, Mod 97-10); (3) for the inline generators of ISBN-10, ISSN and EAN the weighted-sum normal form '
+    '(modulus, weights, residue table) is extracted by the interpreter and must satisfy M/gcd(w, M) > 9 per position, an injective '
+    'table and - ISBN-10, ISSN - a prime modulus with different adjacent weights including the check position; (4) rearranged '
+    'Mod 97-10 inputs stay shorter than the order of 10 modulo 97. Together with C05 (compare-and-raise) this gives rejection of every '
+    'single substitution and the stated transpositions for all valid numbers at once.',
+    'Trusted: sa/alg/LEMMAS.md, elementary number theory, sa/strabs models. IBAN is evaluated with check_country=False.',
+    'abstract interpretation with coverage facts + weighted-sum normal form extraction + ALG tabulation',
+    'DESIGN.md section C17')
+
 NOT_APPLICABLE = {
 }
 
